@@ -93,6 +93,7 @@ class MB:
         self.bindings = [{}]  # per-feed symbolic dim bindings, e.g. [{"N":2},{"N":3},{"N":1}]
         self.special_feed = False
         self.vi_override = {}  # name -> (dt, shape) value_info forced by the space
+        self.vi_drop = set()   # names whose inferred value_info is withheld
 
     def fresh(self, base="t"):
         self._n += 1
@@ -176,7 +177,7 @@ class MB:
             for v in inferred.graph.value_info:
                 if v.name in onames:
                     continue
-                if v.name in self.vi_override:
+                if v.name in self.vi_override or v.name in self.vi_drop:
                     continue
                 m.graph.value_info.append(v)
             for nme, (dt, shape) in self.vi_override.items():
